@@ -53,6 +53,12 @@ func TestWorker(t *testing.T) {
 		cancel := startWatchdog(sc, emit)
 		res := RunScenario(t, sc)
 		cancel()
+		if debugTrace {
+			sort.Strings(debugLog)
+			for _, l := range debugLog {
+				fmt.Fprintln(os.Stderr, "TRACE", l)
+			}
+		}
 		res.Scenario = sc
 		emit(res)
 		return
